@@ -26,7 +26,7 @@ RULE = (
     'tracks of atom 1 (thorough: all 3-frame traces), lattice assigned round-robin from LATTICES; transformations: '
     'axis permutation, generic rotation, 2 cube rotations, voxel-multiple translation pushing atoms through faces, '
     'generic irrational translation, atom reorderings (swap Li atoms; interleave framework), site permutations; thorough: '
-    'all 5 site permutations and ordered pairs (rotation x translation x permutation); evaluation = one transformed '
+    'float radius / per-label radii alternate; all 5 site permutations and ordered pairs (rotation x translation x permutation); evaluation = one transformed '
     'pipeline run compared with the base run; distinct = distinct base pipeline outcomes'
 )
 LEVEL_TEXT = (
